@@ -369,6 +369,9 @@ func serverUpgraderRules(c *Ctx, prop string) {
 			if rejected && cs != "500" && !strings.Contains(cs, ".code") {
 				problems = append(problems, "the status code is not the rejection's code: "+cs)
 			}
+			if why := statusCodeProblem(p, code); why != "" {
+				problems = append(problems, why+" "+desc)
+			}
 			if len(p.Calls("Flush")) != 1 {
 				problems = append(problems, "the error response is not flushed "+desc)
 			}
@@ -690,4 +693,38 @@ func staleUses(p *fold.Path, ret fold.Val) []string {
 		}
 	})
 	return out
+}
+
+// statusCodeProblem checks the status code handed to the error response: a
+// constant must be a real status, a rejection's own code may only be used on a
+// path that has established that it is not zero (a rejection built without
+// RejectionStatus has none; the response would start "HTTP/1.1 0").
+func statusCodeProblem(p *fold.Path, code fold.Val) string {
+	k, ok := code.(fold.Int)
+	if !ok {
+		return "undecided: status code of the error response is " + fold.Show(code)
+	}
+	if k.IsConst() {
+		if k.Const() < 100 || k.Const() > 599 {
+			return fmt.Sprintf("the error response is written with status %d", k.Const())
+		}
+		return ""
+	}
+	if !k.Top && k.Lo >= 100 {
+		return ""
+	}
+	name := k.Name
+	for _, ch := range p.Choices {
+		if name == "" || !strings.Contains(ch.Key, name) {
+			continue
+		}
+		switch {
+		case strings.Contains(ch.Key, "==0)") && ch.Opt == 0,
+			strings.Contains(ch.Key, "!=0)") && ch.Opt == 1,
+			strings.Contains(ch.Key, ">0)") && ch.Opt == 1,
+			strings.Contains(ch.Key, "<=0)") && ch.Opt == 0:
+			return ""
+		}
+	}
+	return "a rejection without a status (code 0) is answered with status 0 instead of 500: the code " + fold.Show(code) + " is used without a zero test"
 }
